@@ -164,20 +164,54 @@ def regen():
         try:
             m = __import__(mod)
             txt = m.generate()
-        except Exception as e:       # a translator that cannot read the source any more: the gen file is
-            GEN_ERRORS[fname] = repr(e)   # removed so that every theorem depending on it stops checking
+        except Exception as e:
+            # a translator that cannot read the source any more: the obligations over this table are NOT re-established
+            # (every check whose theorems depend on it reports that, see checks/common.prepare).  The file of the last
+            # readable tree (in a fresh sandbox: the committed one) is kept, so that the correspondence can still search
+            # for a concrete input on which the property now fails.
+            GEN_ERRORS[fname] = '%s: %r' % (mod, e)
             log('translator %s failed: %r' % (mod, e))
-            if os.path.exists(os.path.join(COQ, 'gen', fname)):
-                os.remove(os.path.join(COQ, 'gen', fname))
-                for ext in ('.vo', '.glob', '.vos', '.vok'):
-                    f = os.path.join(COQ, 'gen', fname[:-2] + ext)
-                    if os.path.exists(f):
-                        os.remove(f)
-            changed.append(fname)
             continue
         if write_if_changed(os.path.join(COQ, 'gen', fname), txt):
             changed.append(fname)
     return changed
+
+
+SNAPSHOT_USED = {}
+
+
+def with_snapshot(name, live_fn):
+    """tables read from /repo by a translator for the Python side of the checks; when the translator cannot read the
+    current source, the tables of the last readable tree (coq/gen/<name>.snapshot, committed) are used instead - only
+    to search for a failing input; the broken tie is reported by the check (SNAPSHOT_USED / GEN_ERRORS)"""
+    import pickle
+    path = os.path.join(COQ, 'gen', name + '.snapshot')
+    try:
+        val = live_fn()
+    except Exception as e:
+        SNAPSHOT_USED[name] = repr(e)
+        log('translator tables %s unavailable (%r): using the snapshot of the last readable tree' % (name, e))
+        if os.path.exists(path):
+            return pickle.load(open(path, 'rb'))
+        raise
+    data = pickle.dumps(val, protocol=4)
+    if not os.path.exists(path) or open(path, 'rb').read() != data:
+        open(path, 'wb').write(data)
+    return val
+
+
+def module_deps(mod, seen=None):
+    """transitive `From Solstat Require Import` closure of a Coq module of the development"""
+    seen = set() if seen is None else seen
+    f = coq_file_of(mod)
+    if f is None or mod in seen:
+        return seen
+    seen.add(mod)
+    src = re.sub(r'\(\*.*?\*\)', '', open(f).read(), flags=re.S)
+    for m in re.finditer(r'From\s+Solstat\s+Require\s+(?:Import|Export)\s+([^.]*)\.', src):
+        for d in m.group(1).split():
+            module_deps(d, seen)
+    return seen
 
 
 def write_coqproject():
